@@ -555,7 +555,7 @@ class Prov:
                 kws = {kk: rec(v, d, seen) for kk, v in t[3].items()}
                 recv = rec(t[5], d, seen) if t[5] is not None else None
                 fq = t[1]
-                if calls and fq in p.funcs and d > 0 and fq not in seen and not p.funcs[fq].is_generator():
+                if calls and fq in p.funcs and d > 0 and fq not in seen:
                     call = t[4]
                     cf = p.func_of_node.get(id(call))
                     tg = p.resolve_call(call, cf) if cf is not None else [fq]
